@@ -13,17 +13,19 @@
 //           outcast (silent during Generate, honest code in Sign)
 //   dss     the same for DSS (Generate, Sign, Refresh, Sign): built-in switch with coin patterns of bounded weight
 //           (none / all / exactly one of the 24 coins that Sign evaluates) x sub-protocol coins all 0 / all 1 / seeded,
-//           silent, outcast, wrong values at every position (n=4), reduced signer set {1..n-1}
+//           silent, outcast, wrong values / crash at every position (thorough: n=4 every signer, n=5 one signer; quick: a
+//           stride for one signer), reduced signer set {1..n-1}
 //   msg     messages 0, 1, q-1, q, q+1, seeded 256 bit: NTS signs all six in one world; DSS signs each once before and once
 //           after Refresh; without faults and with one built-in-faulty signer; both groups
 //   verify  verifier boundary catalogue around one honest signature per scheme and group:
 //           (r',s') resp. (c',s') in {0,1,q-1,q,q+1,-1,v,v+q,v+1}^2 x m' in {m,m+1,m+q}; plus tmcg_mpz_shash cross-checks
 // Tiers: quick n in {3,4,5} (DSS faults: n=4), thorough n = 3..7 (DSS faults: n=4,5,7) — see props/C16.json "rule".
 //
-// Oracle (per world, honest = not in F): every honest party finishes Generate/Sign/Refresh with true; all honest parties
-// hold the same y and the same signature; the signature is sent to the independent Python reference (ref/oracle_tsig.py:
+// Oracle (per world, honest = not in F): all honest parties hold the same y; all honest parties whose Sign returned true hold
+// the same signature; that signature is sent to the independent Python reference (ref/oracle_tsig.py:
 // textbook Schnorr with tmcg_mpz_shash rebuilt from hashlib / textbook DSA with range checks) which must accept it; the
-// library's own Verify must accept it as well.  Catalogue: the library verdict is sent to Python and must equal the textbook
+// library's own Verify must accept it as well.  Honest runs that return false produce no output and are only counted
+// (honest_sign_failed_with_faulty_signer:<class>), except when nobody is faulty: then every phase must succeed (all-honest-failed).  Catalogue: the library verdict is sent to Python and must equal the textbook
 // verdict (NTS: only for 0 <= s' < q, Schnorr's range condition is not part of the implemented scheme).
 #include "c16_world.hh"
 using namespace drv;
@@ -63,14 +65,31 @@ static void judge(const Cfg &C, const World &W)
 	for (size_t i = 0; i < C.n; i++) if (!C.faulty(i)) H.push_back(i);
 	bool any = false;
 	std::string y;
+	// A run that does not complete at an honest party produces no output and is outside C16 (the property is conditional on
+	// completion); it is only counted, by deviation class.  With nobody faulty every phase must succeed everywhere.
+	const bool allhonest = C.F.empty();
+	const std::string kf = "tsig/" + sname(C.scheme) + "/all-honest-failed", cl = sname(C.scheme) + "/" + C.beh.kname();
 	for (size_t x = 0; x < H.size(); x++)
 	{
 		const Party &P = W.P[H[x]];
-		if (P.threw) R.viol(kb + "honest-exception", "honest party " + str(H[x]) + " ended a phase by exception: " + P.what, id);
-		if (!P.gen_ok) R.viol(kb + "honest-generate-failed", "Generate returned false at honest party " + str(H[x]), id);
-		if (!P.refresh_ok) R.viol(kb + "honest-refresh-failed", "Refresh returned false at honest party " + str(H[x]), id);
-		if (x == 0) y = P.y;
-		else if (P.y != y) R.viol(kb + "public-key-differs", "honest parties " + str(H[0]) + " and " + str(H[x]) + " hold different y: " + y + " vs " + P.y, id);
+		if (P.threw)
+		{
+			if (allhonest) R.viol(kf, "party " + str(H[x]) + " ended a phase by exception: " + P.what, id);
+			else R.counters["honest_exception_with_faulty_signer:" + cl]++;
+		}
+		if (!P.gen_ok)
+		{
+			if (allhonest) R.viol(kf, "Generate returned false at party " + str(H[x]), id);
+			else R.counters["honest_generate_failed_with_faulty_party:" + cl]++;
+		}
+		if (!P.refresh_ok)
+		{
+			if (allhonest) R.viol(kf, "Refresh returned false at party " + str(H[x]), id);
+			else R.counters["honest_refresh_failed_with_faulty_party:" + cl]++;
+		}
+		if (!P.gen_ok) continue;
+		if (y.empty()) y = P.y;
+		else if (P.y != y) R.viol(kb + "public-key-differs", "honest parties hold different y: " + y + " vs " + P.y + " (party " + str(H[x]) + ")", id);
 	}
 	for (size_t k = 0; k < C.msgs.size(); k++)
 	{
@@ -81,11 +100,12 @@ static void judge(const Cfg &C, const World &W)
 			if (!s.ran) continue;
 			if (!s.ok)
 			{
-				R.viol(kb + "honest-sign-failed", "Sign #" + str(k) + " (m=" + C.mnames[k] + ") returned false at honest party " + str(H[x]) +
-					" with |F|=" + str(C.F.size()) + " <= t=" + str(C.t), id);
+				if (allhonest) R.viol(kf, "Sign #" + str(k) + " (m=" + C.mnames[k] + ") returned false at party " + str(H[x]), id);
+				else R.counters["honest_sign_failed_with_faulty_signer:" + cl]++;
 				continue;
 			}
 			any = true;
+			R.counters["honest_sign_completed"]++;
 			if (!s.libver)
 				R.viol(kb + "sign-true-verify-false", "Sign #" + str(k) + " returned true at honest party " + str(H[x]) + " but the library's own Verify rejects (" +
 					s.a + "," + s.b + ") for m=" + C.msgs[k] + " y=" + y, id);
@@ -101,7 +121,7 @@ static void judge(const Cfg &C, const World &W)
 			a.push_back(dec(G.p)), a.push_back(dec(G.q)), a.push_back(dec(G.g)), a.push_back(y), a.push_back(C.msgs[k]);
 			a.push_back(it->first.first), a.push_back(it->first.second);
 			std::string kind = C.scheme == NTS ? "tsig.schnorr" : "tsig.dsa";
-			if (C.beh.kind == OUTCAST) kind += ".outcast";
+			if (C.beh.kind != HONEST && !C.F.empty()) kind += "." + C.beh.kname();   // finding keys pyref/<kind> stay specific to the deviation class
 			ref_line(kind, a, "1", id + "#sign" + str(k));
 			RP->counters["signatures_sent_to_reference"]++;
 		}
@@ -312,8 +332,8 @@ static void family_dss(const Grp *G, bool thorough)
 		const bool full = (n == 4), light = (n == 7);
 		World W0;
 		bool tamper_all = thorough && full;
-		bool need_base = true;
-		if (need_base) { W0 = run_case(base); consider(base, &W0); }
+		W0 = run_case(base);
+		consider(base, &W0);
 		Cfg two = base;                       // Generate, Sign, Refresh, Sign
 		two.msgs.push_back(M.val[6]), two.mnames.push_back(M.name[6]);
 		Cfg three = two;                      // ... and a third signature by the reduced signer set {1..n-1}
@@ -350,25 +370,36 @@ static void family_dss(const Grp *G, bool thorough)
 			unsigned nb = 0, nu = 0;
 			for (size_t x = 0; x < E.F.size(); x++) nb = std::max(nb, W0.nb[E.F[x]]), nu = std::max(nu, W0.nu[E.F[x]]);
 			if (light) continue;
-			for (unsigned pos = 0; pos < nb; pos++)
+			// positions: thorough n=4: every position for every single faulty signer (and value:=q for signer n-1);
+			// thorough n=5: every position for signer n-1; quick: the two final broadcasts (the share of s) for every
+			// single signer, and for signer n-1 every 4th broadcast, every 6th private message (the first share of every
+			// sub-protocol), crash at broadcasts 8, 40, 72
+			const bool lastF = single && E.F[0] == (int)n - 1;
+			for (int v = 0; v < 2; v++)
 			{
-				if (!tamper_all && pos + 2 < nb) continue;      // otherwise only the two final broadcasts (the share of s)
-				if (!single) continue;
-				E.beh = Beh(), E.beh.kind = TAMPER_B, E.beh.pos = (int)pos, E.beh.variant = 0;
-				consider(E);
-			}
-			for (unsigned pos = 0; pos < nu; pos++)
-			{
-				if (!tamper_all || !single) continue;
-				E.beh = Beh(), E.beh.kind = TAMPER_U, E.beh.pos = (int)pos, E.beh.variant = 0;
-				consider(E);
-			}
-			if (tamper_all && single)
-				for (unsigned pos = 8; pos <= nb; pos += 8)     // crash in the middle of Sign
+				if (v == 1 && !(tamper_all && lastF)) continue;
+				for (unsigned pos = 0; pos < nb; pos++)
 				{
-					E.beh = Beh(), E.beh.kind = SILENT, E.beh.pos = (int)pos;
+					bool sel = tamper_all ? single : (thorough ? lastF : ((single && pos + 2 >= nb) || (lastF && pos % 4 == 0)));
+					if (!sel) continue;
+					E.beh = Beh(), E.beh.kind = TAMPER_B, E.beh.pos = (int)pos, E.beh.variant = v;
 					consider(E);
 				}
+				for (unsigned pos = 0; pos < nu; pos++)
+				{
+					bool sel = tamper_all ? single : (thorough ? lastF : (lastF && pos % 6 == 0));
+					if (!sel) continue;
+					E.beh = Beh(), E.beh.kind = TAMPER_U, E.beh.pos = (int)pos, E.beh.variant = v;
+					consider(E);
+				}
+			}
+			for (unsigned pos = 8; pos <= nb; pos += 8)     // crash in the middle of Sign
+			{
+				bool sel = tamper_all ? single : (thorough ? lastF : (lastF && pos % 32 == 8));
+				if (!sel) continue;
+				E.beh = Beh(), E.beh.kind = SILENT, E.beh.pos = (int)pos;
+				consider(E);
+			}
 		}
 	}
 }
